@@ -62,7 +62,7 @@ def make_case(gen, rng):
     gen.make_defs(rng.randrange(2, 4))
     defs = gen.def_strings()
     kind = rng.choice(["tabular", "tabular", "tabular-tsv", "spreadsheet", "tabular-labels", "spreadsheet-xlsx",
-                       "spreadsheet-labels"])
+                       "spreadsheet-labels", "tabular-path"])
     b = tables.gen_bundle(gen, rng, nrows=rng.randrange(2, 7), valid_cells=rng.random() < 0.7, empty_cells=False,
                           with_onset=rng.random() < 0.7)
     cols = b["columns"]
@@ -162,6 +162,17 @@ def build_input(case, rows=None):
             df = relabel(df)
         return SpreadsheetInput(df, tag_columns=["HED"], name="sheet")
     sidecar = Sidecar(io.StringIO(json.dumps(b["sidecar"]))) if b["sidecar"] else None
+    if case["kind"] == "tabular-path":
+        # the file on disk, opened by name (the sidecar too)
+        base = os.path.join(env.scratch(), f"c07-{os.getpid()}")
+        with open(base + "_events.tsv", "w", encoding="utf-8", newline="") as f:
+            f.write(tables.to_tsv(dict(b, rows=rows)))
+        side = None
+        if b["sidecar"]:
+            with open(base + "_events.json", "w", encoding="utf-8") as f:
+                json.dump(b["sidecar"], f)
+            side = base + "_events.json"
+        return TabularInput(base + "_events.tsv", side, name="events")
     if case["kind"] == "tabular-tsv":
         return TabularInput(io.StringIO(tables.to_tsv(dict(b, rows=rows))), sidecar, name="events")
     df = pd.DataFrame(rows, columns=b["columns"])
@@ -502,3 +513,11 @@ def replay(case, rec):
         check_nonames(case, rec)
     else:
         check_case(case, rec)
+
+
+def finalize(merged, tier, inconclusive):
+    seen = merged.hist.get("input-kind", {})
+    for k in ("tabular", "tabular-tsv", "tabular-path", "tabular-labels", "spreadsheet", "spreadsheet-labels",
+              "spreadsheet-xlsx", "spreadsheet-nonames", "hostile-cells"):
+        if seen.get(k, 0) < 30:
+            inconclusive.append(f"input kind '{k}' was exercised {seen.get(k, 0)} times (< 30)")
